@@ -184,13 +184,13 @@ def step (st : DState) (line : String) : DState × String :=
   | ["reset"] => ({ st with cfg := Gen.cfg Float, vars := [], apiRules := [] }, "ok")
   | ["newvars"] => ({ st with vars := [] }, "ok")
   | ["cfg_sep", dec, thou] =>
-    ({ st with cfg := { st.cfg with dec := stringOfHex dec, thou := stringOfHex thou } }, "ok")
+    ({ st with cfg := setThousandSeparator (setDecimalSeparator st.cfg (stringOfHex dec)) (stringOfHex thou) }, "ok")
   | ["cfg_num", d, rz, r] =>
-    ({ st with cfg := { st.cfg with numFmt := ⟨d.toNat!, rz = "1", r = "1"⟩ } }, "ok")
+    ({ st with cfg := setNumberConfiguration st.cfg ⟨d.toNat!, rz = "1", r = "1"⟩ }, "ok")
   | ["cfg_pct", d, rz, r] =>
-    ({ st with cfg := { st.cfg with pctFmt := ⟨d.toNat!, rz = "1", r = "1"⟩ } }, "ok")
+    ({ st with cfg := setPercentageConfiguration st.cfg ⟨d.toNat!, rz = "1", r = "1"⟩ }, "ok")
   | ["cfg_money", rz, r] =>
-    ({ st with cfg := { st.cfg with moneyRemoveZero := rz = "1", moneyRounding := r = "1" } }, "ok")
+    ({ st with cfg := setMoneyConfiguration st.cfg (rz = "1") (r = "1") }, "ok")
   | ["cfg_tz", name, off] =>
     ({ st with cfg := { st.cfg with tz := ⟨stringOfHex name, off.toInt!⟩ } }, "ok")
   | ["rate", code, bits] =>
